@@ -55,6 +55,8 @@ func makeMsg(kind string, n int64) (any, error) {
 		return &actor.PID{Address: "v", ID: strconv.FormatInt(n, 10)}, nil
 	case "test":
 		return &remote.TestMessage{Data: []byte(strconv.FormatInt(n, 10))}, nil
+	case "big": // the same message with a payload of 900 bytes
+		return &remote.TestMessage{Data: []byte(fmt.Sprintf("%0900d", n))}, nil
 	case "badutf8":
 		return &actor.PID{Address: "v", ID: "\xff" + strconv.FormatInt(n, 10)}, nil
 	case "nonproto":
@@ -244,6 +246,7 @@ type wire15Msg struct {
 type wire15Case struct {
 	Batch      []wire15Msg `json:"batch"`
 	Registered *bool       `json:"registered"`
+	BuffSize   int         `json:"buff_size"` // reader buffer size the writer is configured with (0 = default)
 }
 
 func runWire15(raw json.RawMessage) (any, error) {
@@ -266,7 +269,7 @@ func runWire15(raw json.RawMessage) (any, error) {
 		targets[i] = batch[i].Target
 	}
 	return n.run(targets, c.Registered == nil || *c.Registered, func() (string, string) {
-		wire, pv := remote.VerifWriterInvoke(n.e, batch)
+		wire, pv := remote.VerifWriterInvokeBuf(n.e, batch, c.BuffSize)
 		if pv != nil {
 			return "panic", "writer: " + fmt.Sprint(pv)
 		}
